@@ -828,3 +828,45 @@ package util
 //@   requires mpt != nil && node != nil && Canon(node) && PathsWF(node) && CollectorWF(mpt) && str(key) == NodeHB(node, heapof(OriginTracker.Origin))
 //@   ensures err == nil ==> NodeHB(node, heapof(OriginTracker.Origin)) == str(key)                                      #donor-node-keeps-its-key
 //@   ensures heapof(OriginTracker.Origin) == old(heapof(OriginTracker.Origin))                                          #donor-node-is-not-modified
+
+// ================= C14: stores keep a node under the key it is handed with, and that key is the node's hash =================
+//
+// Every implementation of NodeDB.PutNode / MultiPutNode takes the interface-level precondition
+// (stored-under-its-hash / batch-keyed-by-hash) and passes it on unchanged to the store below it.
+// StoreKeyed: every node held by a memory store hashes to the key it is held under.
+//@ pred StoreKeyed(mndb *MemoryNodeDB) = mndb.Nodes != nil && (forall k string :: k in mndb.Nodes ==> mndb.Nodes[k] != nil && NodeHB(mndb.Nodes[k], heapof(OriginTracker.Origin)) == k)
+//@ func (*MemoryNodeDB).putNode returns (err)
+//@   props C14
+//@   mode wrap
+//@   requires StoreKeyed(mndb) && node != nil && str(key) == NodeHB(node, heapof(OriginTracker.Origin))        #stored-under-its-hash
+//@   assigns mapof(mndb.Nodes)
+//@   ensures err == nil && StoreKeyed(mndb) && str(key) in mndb.Nodes                                          #store-stays-keyed-by-hash
+//@   ensures forall k string :: k != str(key) ==> (k in mndb.Nodes) == old(k in mndb.Nodes) && mndb.Nodes[k] == old(mndb.Nodes[k])      #other-keys-untouched
+//@ func (*MemoryNodeDB).PutNode returns (err)
+//@   props C14
+//@   mode wrap
+//@   requires mndb.mutex != nil && StoreKeyed(mndb) && node != nil && str(key) == NodeHB(node, heapof(OriginTracker.Origin))        #stored-under-its-hash
+//@   assigns mapof(mndb.Nodes)
+//@   ensures err == nil && StoreKeyed(mndb) && str(key) in mndb.Nodes                                          #store-stays-keyed-by-hash
+//@ func (*MemoryNodeDB).MultiPutNode returns (err)
+//@   props C14
+//@   mode wrap
+//@   requires mndb.mutex != nil && StoreKeyed(mndb) && KeyedByHash(keys, nodes)                                 #batch-keyed-by-hash
+//@   assigns mapof(mndb.Nodes)
+//@   ensures err == nil && StoreKeyed(mndb)                                                                    #store-stays-keyed-by-hash
+//@   loop 1 invariant StoreKeyed(mndb)
+//@ func (*LevelNodeDB).putNode returns (err)
+//@   props C14
+//@   mode wrap
+//@   requires lndb.current != nil && node != nil && str(key) == NodeHB(node, heapof(OriginTracker.Origin))     #stored-under-its-hash
+//@   assigns nothing
+//@ func (*LevelNodeDB).PutNode returns (err)
+//@   props C14
+//@   mode wrap
+//@   requires lndb.mutex != nil && lndb.current != nil && node != nil && str(key) == NodeHB(node, heapof(OriginTracker.Origin))     #stored-under-its-hash
+//@   assigns nothing
+//@ func (*LevelNodeDB).MultiPutNode returns (err)
+//@   props C14
+//@   mode wrap
+//@   requires lndb.mutex != nil && lndb.current != nil && KeyedByHash(keys, nodes)                              #batch-keyed-by-hash
+//@   assigns nothing
